@@ -21,7 +21,7 @@ pub(crate) mod proofs {
         type Pool = OgreArrayPoolAllocator<Droppy, $fl<u32, P>, P>;
         type Unique = OgreUnique<Droppy, Pool>;
 
-        // @props C14 C05 C01 C13
+        // @props C14 C05 C01 C13 C08
         #[kani::proof] #[kani::unwind($unw)] #[kani::stub(std::hint::spin_loop, noop)]
         fn unique_owns_and_releases_once() {
             let pool = Pool::new();
@@ -44,7 +44,7 @@ pub(crate) mod proofs {
             kani::cover!(true, "end of harness reachable (vacuity guard)");
         }
 
-        // @props C14 C05 C03 C01 C13
+        // @props C14 C05 C03 C01 C13 C08
         #[kani::proof] #[kani::unwind($unw)] #[kani::stub(std::hint::spin_loop, noop)]
         fn into_ogre_arc_transfers_ownership() {
             let pool = Pool::new();
